@@ -95,7 +95,7 @@ __CPROVER_ensures(FSTK_KEEP(vg_k))
  * ASSUMES (as for libc string functions): s holds a NUL at or after s. */
 spif_charptr_t spiftool_chomp(spif_charptr_t s)
 __CPROVER_requires(s != NULL && __CPROVER_rw_ok(s, 1))
-__CPROVER_assigns(__CPROVER_object_from(s), vg_line, vgc.ev)
+__CPROVER_assigns(__CPROVER_object_whole(s), vg_line, vgc.ev)
 __CPROVER_ensures(__CPROVER_return_value == s)
 __CPROVER_ensures(vg_seq == __CPROVER_old(vg_seq) + 1 && vg_t_chomp == vg_seq)
 /* result starts with a non-blank (or is empty); the ghost snapshot equals the text */
@@ -135,7 +135,7 @@ __CPROVER_ensures(!(index == 1 && VPLAINCH(str[0])) || __CPROVER_return_value ==
  * Spawns a process only after reading a backquote or matching %exec( . */
 spif_charptr_t spifconf_shell_expand(spif_charptr_t s)
 __CPROVER_requires(s != NULL && VREMAIN(s) >= CONFIG_BUFF && __CPROVER_rw_ok(s, CONFIG_BUFF))
-__CPROVER_assigns(__CPROVER_object_upto(s, CONFIG_BUFF), spifconf_vars, vg_se_len, vgc.ev, vgc.sp)
+__CPROVER_assigns(__CPROVER_object_whole(s), spifconf_vars, vg_se_len, vgc.ev, vgc.sp)
 __CPROVER_ensures(__CPROVER_return_value == s || __CPROVER_return_value == NULL)
 __CPROVER_ensures(vg_se_len < CONFIG_BUFF && s[vg_se_len] == 0)
 __CPROVER_ensures(vg_seq == __CPROVER_old(vg_seq) + 1 && vg_t_expand == vg_seq && vg_t_chomp == __CPROVER_old(vg_t_chomp))
@@ -146,7 +146,7 @@ __CPROVER_ensures(vg_spawned == __CPROVER_old(vg_spawned) || vg_saw_bq != __CPRO
  * (at most len bytes, NUL-terminated); spawns nothing. */
 int spiftool_temp_file(spif_charptr_t ftemplate, size_t len)
 __CPROVER_requires(ftemplate != NULL && len > 0 && __CPROVER_rw_ok(ftemplate, len))
-__CPROVER_assigns(__CPROVER_object_upto(ftemplate, len), vgc.tf)
+__CPROVER_assigns(__CPROVER_object_whole(ftemplate), vgc.tf)
 __CPROVER_ensures(__CPROVER_return_value >= -1)
 __CPROVER_ensures(vg_tpl_len < len && ftemplate[vg_tpl_len] == 0)
 ;
